@@ -514,9 +514,12 @@ func init() {
 		if g5 := loadGrammars(r, prog); g5 != nil {
 			r.importing = "C07"
 			checkSelectorGrammar(r, NewGA(prog, g5.Tab), "c07") // "resolves" is said of the path that was written: `~1` in a pointer is the `/` of the key
+			r.importing = "C01"
+			checkBindingModes(r, prog, NewGA(prog, g5.Tab), "c01") // "through quantifier-bound aliases": the name written after `as` is the name bound, in each of the three forms
 		}
 		r.importing = "C06"
 		checkQuantifier(r, prog, a, "c06") // a selector below a bound name is the selector of that element: the table applies to `x.absent` inside any/all as outside
+		checkScan(r, prog, a, "c06")       // … at every depth of nesting: an inner alias resolves through the outer ones
 		r.importing = "C04"
 		checkMatchDispatch(r, prog, a, "c04")
 		r.importing = "C18"
